@@ -196,6 +196,12 @@ for isa in ("x86", "aarch64"):
                 for o in list(e.operands) + list(e.hidden_operands or []):
                     if isinstance(o, dict):
                         R.fail("C15/wf/isa-operand", f"C15:isa-operand:{isa}:{name}", f"isa/{isa} {name}: operand of unknown class {o}")
+                    # the registers inside a memory operand (e.g. the hidden stack access of push / pop) are converted as well:
+                    # a raw mapping left behind makes the dependency analysis fail with AttributeError
+                    for part in ("base", "index"):
+                        v = getattr(o, part, None)
+                        if isinstance(v, dict):
+                            R.fail("C15/wf/isa-operand", f"C15:isa-operand-part:{isa}:{name}", f"isa/{isa} {name}: {part} of a memory operand left as a raw mapping {dict(v)}")
                 if e.operation is not None and not isinstance(e.operation, str):
                     R.fail("C15/wf/isa-operation", f"C15:isa-operation:{isa}:{name}", f"isa/{isa} {name}: operation {e.operation!r}")
     except Exception as ex_:
